@@ -399,6 +399,137 @@ def code_state_matrix(rep: Any) -> None:
         rep.candidate("codes: " + key, f"code {ecode}: global own/parent {g_own}/{g_par}, module own/parent {m_own}/{m_par}", {"code": ecode, "global": [g_own, g_par], "module": [m_own, m_par]}, replay)
 
 
+def ignore_without_code(rep: Any) -> None:
+    """K1e: `ignore-without-code`.  Errors.generate_ignore_without_code_errors and its gate
+    State.generate_ignore_without_code_notes (both from source) on a real Errors object; two lines, per
+    line the solver chooses the comment (none / bare / coded), whether an error with code arg-type and /
+    or misc is reported there, whether the line is skipped (unreachable); for the run: the code enabled
+    or not, --warn-unused-ignores, whole-file ignore.  Oracle (documented): a bare comment is reported iff
+    the code is enabled, the line is reachable, the file is not ignored as a whole, and -- when unused
+    ignores are warned about -- it suppressed something; the hint names exactly the codes it suppressed."""
+    from mypy import errorcodes as codes
+    from mypy.options import Options
+
+    KE = Kernel("mypy.errors", ["Errors.add_error_info", "Errors.is_ignored_error", "Errors.is_error_code_enabled", "Errors.generate_ignore_without_code_errors", "Errors.report_simple_error"], closure=False)
+    KB = Kernel("mypy.build", ["State.generate_ignore_without_code_notes"], closure=False)
+    rep.kernels_from(KE)
+    rep.kernels_from(KB)
+    import mypy.errors as E
+
+    class KErrors(E.Errors):
+        add_error_info = KE["Errors.add_error_info"]
+        is_ignored_error = KE["Errors.is_ignored_error"]
+        is_error_code_enabled = KE["Errors.is_error_code_enabled"]
+        generate_ignore_without_code_errors = KE["Errors.generate_ignore_without_code_errors"]
+        report_simple_error = KE["Errors.report_simple_error"]
+
+    gate = KB["State.generate_ignore_without_code_notes"]
+    COMMENTS = [None, [], ["arg-type"]]
+    ctx = Ctx(max_paths=2_000_000)
+    found: dict = {}
+    n = {"runs": 0, "reported": 0, "silent": 0}
+
+    def body(c: Ctx) -> None:
+        enabled = bool(c.bool("ignore_without_code_enabled"))
+        warn_unused = bool(c.bool("warn_unused_ignores"))
+        ignore_all = bool(c.bool("whole_file_ignored"))
+        lines = {}
+        for ln in (3, 7):
+            lines[ln] = {
+                "comment": COMMENTS[c.choose(f"comment_l{ln}", 3)],
+                "arg": bool(c.bool(f"arg_type_error_l{ln}")),
+                "misc": bool(c.bool(f"misc_error_l{ln}")) if ln == 3 else False,
+                "skipped": bool(c.bool(f"skipped_l{ln}")),
+            }
+        o = Options()
+        o.warn_unused_ignores = warn_unused
+        if enabled:
+            o.enabled_error_codes = {codes.IGNORE_WITHOUT_CODE}
+        errors = KErrors(o)
+        errors.set_file("m.py", "m", o)
+        errors.set_file_ignored_lines("m.py", {ln: list(v["comment"]) for ln, v in lines.items() if v["comment"] is not None}, ignore_all)
+        errors.set_skipped_lines("m.py", {ln for ln, v in lines.items() if v["skipped"]})
+        for ln, v in lines.items():
+            if v["skipped"]:
+                continue  # nothing is reported in unreachable code
+            if v["arg"]:
+                errors.report(ln, 0, "bad argument", code=codes.ARG_TYPE)
+            if v["misc"]:
+                errors.report(ln, 0, "something else", code=codes.MISC)
+
+        class Mgr:
+            pass
+
+        class St:
+            tree = None
+            xpath = "m.py"
+
+            @staticmethod
+            def wrap_context() -> Any:
+                return contextlib.nullcontext()
+
+        st = St()
+        st.options = o  # type: ignore[attr-defined]
+        st.manager = Mgr()  # type: ignore[attr-defined]
+        st.manager.errors = errors
+        gate(st)
+        n["runs"] += 1
+        got = {i.line: i.message for i in errors.error_info_map.get("m.py", []) if i.code is codes.IGNORE_WITHOUT_CODE}
+        for ln, v in lines.items():
+            suppressed = sorted({cde for cde, on in (("arg-type", v["arg"]), ("misc", v["misc"])) if on}) if v["comment"] == [] and not v["skipped"] else []
+            want = enabled and v["comment"] == [] and not v["skipped"] and not ignore_all and not (warn_unused and not suppressed)
+            c.stats["assert_queries"] += 1
+            n["reported" if ln in got else "silent"] += 1
+            ok = (ln in got) == want
+            if ok and want:
+                hint = got[ln]
+                ok = all(cde in hint for cde in suppressed) and not any(cde in hint for cde in ("arg-type", "misc") if cde not in suppressed)
+            if ok:
+                c.stats["discharged"] += 1
+            else:
+                c.stats["refuted"] += 1
+                key = "ignore-without-code " + ("reported although the rules say no" if ln in got and not want else "missing although the rules say yes" if want and ln not in got else "hint names the wrong codes")
+                found.setdefault(key, (ln, {k: dict(x) for k, x in lines.items()}, enabled, warn_unused, ignore_all, got.get(ln)))
+
+    ctx.explore(body)
+    rep.add_ctx("K1e ignore-without-code generation and its gate", ctx, outcomes=dict(n))
+    rep.twin("K1e: reported and silent outcomes reached", n["reported"] > 0 and n["silent"] > 0)
+    rep.bounds.append("K1e: two lines; comment none / bare / [arg-type]; arg-type and misc errors on the line or not; line skipped or not; code enabled or not; --warn-unused-ignores; whole-file ignore")
+    for key, (ln, lines, enabled, warn_unused, ignore_all, msg) in found.items():
+        rep.sample({"kernel": "generate_ignore_without_code_errors", "class": key, "line": ln, "lines": lines, "enabled": enabled, "warn_unused_ignores": warn_unused, "whole_file_ignored": ignore_all, "message": msg})
+
+        def replay(d: str, ln: int = ln, lines: dict = lines, enabled: bool = enabled, warn_unused: bool = warn_unused, ignore_all: bool = ignore_all) -> tuple[bool, str]:
+            import mypy.errors as E2
+
+            o = Options()
+            o.warn_unused_ignores = warn_unused
+            if enabled:
+                o.enabled_error_codes = {codes.IGNORE_WITHOUT_CODE}
+            errors = E2.Errors(o)
+            errors.set_file("m.py", "m", o)
+            errors.set_file_ignored_lines("m.py", {l2: list(v["comment"]) for l2, v in lines.items() if v["comment"] is not None}, ignore_all)
+            errors.set_skipped_lines("m.py", {l2 for l2, v in lines.items() if v["skipped"]})
+            for l2, v in lines.items():
+                if v["skipped"]:
+                    continue
+                if v["arg"]:
+                    errors.report(l2, 0, "bad argument", code=codes.ARG_TYPE)
+                if v["misc"]:
+                    errors.report(l2, 0, "something else", code=codes.MISC)
+            if errors.is_error_code_enabled(codes.IGNORE_WITHOUT_CODE):
+                errors.generate_ignore_without_code_errors("m.py", warn_unused, False)
+            got = {i.line: i.message for i in errors.error_info_map.get("m.py", []) if i.code is codes.IGNORE_WITHOUT_CODE}
+            v = lines[ln]
+            suppressed = sorted({cde for cde, on in (("arg-type", v["arg"]), ("misc", v["misc"])) if on}) if v["comment"] == [] and not v["skipped"] else []
+            want = enabled and v["comment"] == [] and not v["skipped"] and not ignore_all and not (warn_unused and not suppressed)
+            bad = (ln in got) != want
+            if not bad and want:
+                bad = not all(cde in got[ln] for cde in suppressed) or any(cde in got[ln] for cde in ("arg-type", "misc") if cde not in suppressed)
+            return bad, f"unmodified API: line {ln}: reported={ln in got} ({got.get(ln)}), rules say {want} with hint {suppressed}"
+
+        rep.candidate("ignore-without-code: " + key, f"line {ln} of {lines}, enabled={enabled}, warn_unused={warn_unused}, file ignored={ignore_all}", {"line": ln}, replay)
+
+
 def module_ignore_scope(rep: Any) -> None:
     """K1c: when does a '# type: ignore' comment silence the whole module?  fastparse.parse with the
     source-extracted ASTConverter.get_lineno / translate_stmt_list on generated module heads; the
@@ -507,6 +638,7 @@ def run(rep: Any, tier: str) -> None:
             found.setdefault(k, v)
     code_pair_matrix(rep)
     code_state_matrix(rep)
+    ignore_without_code(rep)
     module_ignore_scope(rep)
     rep.add_ctx("K1 ignore / error-code exactness", tot, outcomes=counts)
     rep.twin("K1: shown, suppressed and unused-ignore outcomes all reached", counts["shown"] > 0 and counts["suppressed"] > 0 and counts["unused"] > 0)
